@@ -581,7 +581,7 @@ def run_in(chk, drv, model, emodel, root):
 
     # ---- (b)+(c) generated histories under every schedule
     t0 = time.time()
-    nh = chk.n(24, 150)
+    nh = chk.n(20, 150)
     for h in range(nh):
         ctx["hid"] = "g%d" % h
         base = [strip_opts(l) for l in enginelib.gen_history(rng, nops=(3, 9))]
@@ -648,7 +648,7 @@ def run_in(chk, drv, model, emodel, root):
     hunt_builds, t_hunt = (0, 0.0)
     if not ctx.get("hang"):
         np_ = max(2, min(8, vlib.NCPU // 2))
-        hunt_builds, t_hunt = hunt(chk, ctx, drv, chk.n(min(4, np_), np_), chk.n(1000, 6000), 24, chk.n(60, 400))
+        hunt_builds, t_hunt = hunt(chk, ctx, drv, chk.n(min(4, np_), np_), chk.n(500, 6000), 24, chk.n(60, 600))
 
     # ---- (e) ThreadSanitizer (thorough tier)
     tsan_builds = 0
